@@ -12,12 +12,14 @@ from .base import Result, V
 from . import simcommon as SC
 from .c07 import dev
 
-MODULES = ['TickitModel.Props.C10', 'TickitModel.Props.C15', 'TickitModel.Props.C01', 'TickitModel.Props.C01Live', 'TickitModel.Props.C10Run']
-THEOREMS = ['part_tick_same', 'whole_never_stalls', 'extent_stays_inside', 'isPart_append', 'topic_injective', 'topic_in_ne_out', 'within_extent', 'tick_can_complete', 'part_run_same', 'part_run_same_any', 'part_run_same_append']
+MODULES = ['TickitModel.Props.C10', 'TickitModel.Props.C15', 'TickitModel.Props.C01', 'TickitModel.Props.C01Live', 'TickitModel.Props.C10Run', 'TickitModel.Props.C10Epics']
+THEOREMS = ['part_tick_same', 'whole_never_stalls', 'extent_stays_inside', 'isPart_append', 'topic_injective', 'topic_in_ne_out', 'within_extent', 'tick_can_complete', 'part_run_same', 'part_run_same_any', 'part_run_same_append',
+            'Epics.notified_once_per_own_update', 'Epics.notified_only_by_own_device', 'Epics.records_noninterference', 'Epics.records_unchanged_by_other_component',
+            'Epics.record_set_own', 'Epics.adapter_events_closed_form', 'Epics.shared_sets_foreign_records']
 ANCHORS = ["src/tickit/utils/topic_naming.py", "src/tickit/core/management/schedulers/nested.py", "src/tickit/core/management/schedulers/base.py",
            "src/tickit/core/state_interfaces/internal.py", "src/tickit/adapters/epics.py", "src/tickit/core/components/device_component.py"]
 TECHNIQUE = 'Lean 4 theorems (distinct components never share a topic - over constants regenerated from the code; a tick touches only the extent of its roots and never stalls on an acyclic wiring; projection of a tick onto a disconnected part) + differential runs of the real code: configuration vs configuration extended by a disconnected part, incl. the shipped EPICS and command adapter classes'
-LEVEL_TEXT = "Proved over the ticker model, for every wiring, reaction function and pair of answer orders: if no wire connects a set A of components to the rest, every component of A receives in a complete tick of the whole simulation exactly the dispatch it receives in the same tick of A alone (rank induction; the rest may do anything) - adding or removing a disconnected device, chain or system changes nothing for A; roots inside A never drag in anything outside A; the union of two well-formed wirings over disjoint components has each as such a part (so the hypothesis is satisfiable in general); the whole never stalls on an acyclic wiring; input/output topics of distinct components are pairwise distinct, over affixes re-extracted from topic_naming.py on every run. Over MANY ticks (part_run_same, part_run_same_any, part_run_same_append; flat multi-tick system, callbacks, devices that may behave differently at every tick, every answer order): every run of a configuration extended by a disconnected part projects onto a run of the configuration alone whose ticks are ticks of the extended run, with the SAME observation sequence for every component of the configuration - the extension only adds ticks in which nothing of the base is updated - and by schedule independence that is the observation sequence of every run of the base alone. PARTIAL: multi-tick histories with interrupt stamps (the 1-ns floor effect of non-integral elapsed*speed) and adapter notifications are validated, not proved: each base configuration is run alone and extended by a periodic device, a chain, a sibling system, a depth-2 system, a device with the shipped EpicsAdapter, a device with a CommandAdapter subclass and a disconnected device inside one of its own systems, under two buses: the base part's observation sequences, adapter notification logs and EPICS record refreshes must be identical and the run must not stall; every adapter is notified exactly once per update of its own device."
+LEVEL_TEXT = "ADAPTERS (Props/C10Epics, model Core/Epics of DeviceComponent.on_tick + AdapterContainer + the shipped EpicsAdapter with per-instance record tables): for every configuration, initial state and update history each adapter is notified exactly once per update of its own device and never for another device's update; the notifications and record writes of component c's adapters depend only on the sub-history of c's own updates (adding or removing any other component changes nothing), every write goes to a record of the adapter's own table with its own device's value; with the pre-repair class-level table this provably fails (a record of a is written during an update of b). The model is compared on every run with the real DeviceComponent + EpicsAdapter on generated configurations and histories. TICKS: Proved over the ticker model, for every wiring, reaction function and pair of answer orders: if no wire connects a set A of components to the rest, every component of A receives in a complete tick of the whole simulation exactly the dispatch it receives in the same tick of A alone (rank induction; the rest may do anything) - adding or removing a disconnected device, chain or system changes nothing for A; roots inside A never drag in anything outside A; the union of two well-formed wirings over disjoint components has each as such a part (so the hypothesis is satisfiable in general); the whole never stalls on an acyclic wiring; input/output topics of distinct components are pairwise distinct, over affixes re-extracted from topic_naming.py on every run. Over MANY ticks (part_run_same, part_run_same_any, part_run_same_append; flat multi-tick system, callbacks, devices that may behave differently at every tick, every answer order): every run of a configuration extended by a disconnected part projects onto a run of the configuration alone whose ticks are ticks of the extended run, with the SAME observation sequence for every component of the configuration - the extension only adds ticks in which nothing of the base is updated - and by schedule independence that is the observation sequence of every run of the base alone. PARTIAL: multi-tick histories with interrupt stamps (the 1-ns floor effect of non-integral elapsed*speed) and adapter notifications are validated, not proved: each base configuration is run alone and extended by a periodic device, a chain, a sibling system, a depth-2 system, a device with the shipped EpicsAdapter, a device with a CommandAdapter subclass and a disconnected device inside one of its own systems, under two buses: the base part's observation sequences, adapter notification logs and EPICS record refreshes must be identical and the run must not stall; every adapter is notified exactly once per update of its own device."
 LEVEL_NOTE = 'Trusts: Lean kernel; hand-written models; EPICS/command adapters are driven without a network (record setters are recorders).'
 ASSUMPTIONS = ['the added part shares no wire and no name with the base']
 
@@ -62,6 +64,25 @@ def extensions(rng, scn):
         e = copy.deepcopy(scn)
         next(c for c in e["components"] if c["name"] == syss[0]["name"])["components"].append(dev("xinner", cb={"kind": "period", "p": P}))
         out.append(("device-inside-base-system", e))
+        if not scn.get("stims"):
+            # ... and a quiet one that is driven by its adapter (interrupts at instants of its own)
+            e = copy.deepcopy(scn)
+            next(c for c in e["components"] if c["name"] == syss[0]["name"])["components"].append(dev("xintr"))
+            e["stims"] = [{"real": k * 1_700_000 + 333, "comp": "xintr"} for k in range(1, 9)]
+            out.append(("interrupted-device-inside-base-system", e))
+    # devices whose names differ from a base component's name only in punctuation / case
+    import re as _re
+    names = [c["name"] for c, _, _ in S.walk(scn["components"])]
+    odd = [n for n in names if _re.search(r"[^A-Za-z0-9]", n)]
+    if odd:
+        e = copy.deepcopy(scn)
+        added = []
+        for n in odd[:2]:
+            for v in (_re.sub(r"[^A-Za-z0-9]", "_", n), _re.sub(r"[^A-Za-z0-9]", " ", n), _re.sub(r"[^A-Za-z0-9]", ".", n), n.upper(), n + " "):
+                if v not in names and v not in added:
+                    added.append(v)
+                    e["components"].append(dev(v, cb={"kind": "period", "p": P + 1000 * len(added)}))
+        out.append(("devices-with-confusable-names", e))
     return out
 
 
@@ -80,7 +101,10 @@ def bases(rng, tier):
     cst["beh"]["outs"] = [{"port": "o", "kind": "const", "v": 3}]
     b3 = {"components": [{"name": "ksys", "kind": "sys", "inputs": {}, "expose": {"y": ["k", "o"]}, "components": [cst]},
                          dev("ksink", {"i": ["ksys", "y"]})], "n_ticks": 6}
-    out = [b1, b2, b3]
+    # component names with punctuation (as in beamline configurations: "BL01:CAM", "shutter 1")
+    b4 = {"components": [dev("tbl:x", cb={"kind": "period", "p": P}), dev("snk/1", {"i": ["tbl:x", "o"]}),
+                         {"name": "s y:s", "kind": "sys", "inputs": {"x": ["tbl:x", "o"]}, "expose": {}, "components": [dev("in:1", {"i": ["external", "x"]})]}], "n_ticks": 5}
+    out = [b1, b2, b3, b4]
     # an inner device driven by its adapter: the interrupt arrives k loop iterations after the instant at
     # which (in the extended configuration) an unrelated periodic device of the same system is due - i.e.
     # while the nested tick serving that device is running, or just before / after it
@@ -111,6 +135,99 @@ def base_view(scn, run, base_devs, until_time):
             notes.setdefault((e["k"], e["comp"], e.get("adapter")), []).append(e.get("value", 1) if e["k"] == "record-set" else 1)
     return obs, notes
 
+
+
+def epics_model_diff(rng, n, drv, res):
+    """the real DeviceComponent.on_tick + the shipped EpicsAdapter (per-instance record tables) against the Lean model
+    Core/Epics (Props/C10Epics): generated configurations (1-3 components, 0-3 adapters each, 0-3 linked records each,
+    record names shared between adapters and components) and update histories."""
+    import asyncio
+    import contextlib
+    import io
+    from tickit.adapters.epics import EpicsAdapter, InputRecord
+    from tickit.core.adapter import AdapterContainer
+    from tickit.core.components.device_component import DeviceComponent
+    from tickit.core.device import Device, DeviceUpdate
+    from tickit.core.typedefs import SimTime
+
+    def simulate(cfg, hist):
+        log, recs, cur = [], {}, [("?", -1)]
+
+        class Dev(Device):
+            def __init__(self, name):
+                self.name, self.v, self.queue = name, 0, []
+
+            def update(self, time, inputs):
+                self.v = self.queue.pop(0)
+                log.append(["update", self.name])
+                return DeviceUpdate({}, None)
+
+        class Ad(EpicsAdapter):
+            def __init__(self, ref, dev, links):
+                super().__init__()
+                self.ref = ref
+                for (name, k, b) in links:
+                    if (ref, name) not in recs:
+                        recs[(ref, name)] = InputRecord(name, (lambda v, name=name, ref=ref: log.append(["set", cur[0][0], cur[0][1], ref[0], ref[1], name, v])), None)
+                    self.link_input_on_interrupt(recs[(ref, name)], (lambda k=k, b=b: k * dev.v + b))
+
+            def on_db_load(self):
+                pass
+
+            def after_update(self):
+                log.append(["notify", self.ref[0], self.ref[1]])
+                cur[0] = self.ref
+                super().after_update()
+        comps = {}
+        for name, adapters in cfg:
+            d = Dev(name)
+            ads = [AdapterContainer(Ad((name, i), d, links), None) for i, links in enumerate(adapters)]
+            c = DeviceComponent(name=name, device=d, adapters=ads)
+
+            async def out(time, changes, call_at, name=name):
+                log.append(["output", name])
+            c.output = out
+            comps[name] = c
+
+        async def go():
+            for c, st in hist:
+                if c in comps:
+                    comps[c].device.queue.append(st)
+                    with contextlib.redirect_stdout(io.StringIO()):
+                        await comps[c].on_tick(SimTime(0), {})
+        loop = asyncio.new_event_loop()
+        try:
+            loop.run_until_complete(go())
+        finally:
+            loop.close()
+        return log
+    cases, reals = [], []
+    for _ in range(n):
+        names = rng.sample(["a", "b", "c", "d"], rng.randint(1, 3))
+        cfg = [[nm, [[[rng.choice(["R1", "R2", "R3"]), rng.randint(0, 3), rng.randint(0, 5)] for _ in range(rng.randint(0, 3))]
+                     for _ in range(rng.randint(0, 3))]] for nm in names]
+        hist = [[rng.choice(names + ["zz"]), rng.randint(0, 9)] for _ in range(rng.randint(0, 7))]
+        cases.append({"op": "epics", "shared": False, "config": cfg, "history": hist})
+        try:
+            reals.append(simulate(cfg, hist))
+        except Exception as e:   # noqa: BLE001
+            reals.append([["raised", type(e).__name__, str(e)[:100]]])
+    for c, real, rep in zip(cases, reals, drv.eval(cases)):
+        res.case(("epics-model", str(c)), nontrivial=bool(real))
+        res.count("epics-model-case")
+        res.count("epics-record-sets", sum(1 for e in real if e[0] == "set"))
+        if real != rep:
+            k = next((i for i in range(min(len(real), len(rep))) if real[i] != rep[i]), min(len(real), len(rep)))
+            res.diverge(f"epics adapter records: event #{k}: impl {real[k] if k < len(real) else None} model {rep[k] if k < len(rep) else None}", c)
+        # the property, directly: every notification / record set between an update of X and its output belongs to X
+        owner = None
+        for e in real:
+            if e[0] == "update":
+                owner = e[1]
+            elif e[0] == "notify" and e[1] != owner:
+                res.violate(V("adapter-influenced-by-unconnected-part", f"adapter {e[1:]} notified during the update of {owner}", site="after_update"), {"epics_model": c})
+            elif e[0] == "set" and (e[1] != owner or e[3] != owner):
+                res.violate(V("adapter-influenced-by-unconnected-part", f"record {e[5]} of adapter {e[3:5]} set by adapter {e[1:3]} during the update of {owner}", site="EpicsAdapter.after_update"), {"epics_model": c})
 
 def run(tier, seed, drv):
     res = Result()
@@ -148,6 +265,7 @@ def run(tier, seed, drv):
                 elif nb != ne:
                     k = next(k for k in sorted(set(nb) | set(ne), key=str) if nb.get(k) != ne.get(k))
                     res.violate(V("adapter-influenced-by-unconnected-part", f"adding {label}: {k} saw {ne.get(k)} instead of {nb.get(k)}", site=str(k[0]), extension=label), case)
+    epics_model_diff(random.Random(seed + 31), 120 if tier == "quick" else 1500, drv, res)
     # the shipped EpicsIo with the real softioc record builder, in a fresh interpreter: the records of an
     # EPICS adapter alone vs with other (unconnected) EPICS devices set up concurrently
     import json as _json
@@ -176,7 +294,8 @@ def run(tier, seed, drv):
                 res.violate(V("adapter-influenced-by-unconnected-part", f"EPICS adapter of {n}: records {got['records']}, notified {got['notified']}", site="EpicsIo.setup", extension="epics-io"), case)
     res.rule = ("bases: flat pair with EPICS adapters, source->system->sink with an EPICS sink, generated nestings; each extended by: a periodic device, a "
                 "chain, a sibling system, a depth-2 system, a device with the shipped EpicsAdapter, a device with a CommandAdapter subclass, a "
-                "disconnected device inside one of the base's systems; synchronous and delaying bus; the base part's observation sequences, adapter "
+                "disconnected device inside one of the base's systems (periodic, or quiet and driven by interrupts), devices whose names differ from a base "
+                "component's only in punctuation or case; synchronous and delaying bus; the base part's observation sequences, adapter "
                 "notification logs and EPICS record refreshes up to the base run's last tick time must be identical, and the extended run must not "
                 "stall; every adapter notified exactly once per update of its own device; non-trivial = all")
     return res
